@@ -405,6 +405,13 @@ func (u *Universe) Zero(t types.Type) Term {
 		}
 		return App(s, "mk_"+si.Name, args...)
 	}
+	if k := pseudoKind(t); k == "$dom" || k == "$val" {
+		// the domain / value function of an empty map
+		if mt, ok := t.Underlying().(*types.Map); ok {
+			z := u.Zero(mt.Elem())
+			return Term{fmt.Sprintf("((as const %s) %s)", s, z.S), s}
+		}
+	}
 	if at, ok := t.Underlying().(*types.Array); ok {
 		z := u.Zero(at.Elem())
 		return Term{fmt.Sprintf("((as const %s) %s)", s, z.S), s}
